@@ -38,7 +38,7 @@ func main() {
 	run.Floor("class:storage_failure", 200)
 	dir := run.Scratch()
 	run.Units("hist", run.Pick(2500, 50000), 0, func(unit int64, r *rand.Rand) {
-		o := wit.HistOpts{Gen: gen.Opts{NLogs: 1 + r.IntN(4), MaxSize: 40, Branches: 2 + r.IntN(2), ShareKeys: true, Big: unit%6 == 5, BigBits: 50}, MinSteps: 20, MaxSteps: 50, FaultProb: 0.06, Dir: dir}
+		o := wit.HistOpts{Gen: gen.Opts{NLogs: 1 + r.IntN(4), MaxSize: 40, Branches: 2 + r.IntN(2), ShareKeys: true, Big: unit%6 == 5, BigBits: 50}, MinSteps: 20, MaxSteps: 50, FaultProb: 0.06, DriverFaults: true, Dir: dir}
 		expected := map[string]int64{}
 		var labels []string
 		var before map[string]int64
